@@ -631,3 +631,107 @@ func badMapAppend() int {
 	m["a"] = append(m["a"], 2)
 	return len(m["a"])
 }
+
+// ---- elements of a slice of structs
+func okElemField(s []pair) int {
+	s[0].a = 5
+	t := s[0]
+	t.a = 6
+	return s[0].a
+}
+func badElemField(s []pair) int {
+	s[0].a = 5
+	t := s[0]
+	t.a = 6
+	return s[0].a
+}
+
+// ---- break out of an outer loop
+func okBreakOuter() int {
+	c := 0
+outer:
+	for i := 0; i < 3; i++ {
+		for j := 0; j < 3; j++ {
+			if i == 1 {
+				break outer
+			}
+			c++
+		}
+	}
+	return c
+}
+func badBreakOuter() int {
+	c := 0
+outer:
+	for i := 0; i < 3; i++ {
+		for j := 0; j < 3; j++ {
+			if i == 1 {
+				break outer
+			}
+			c++
+		}
+	}
+	return c
+}
+
+// ---- []byte(s) copies, string(b) copies
+func okBytesOfString(s string) byte {
+	b := []byte(s)
+	b[0] = 'x'
+	return s[0]
+}
+func badBytesOfString(s string) byte {
+	b := []byte(s)
+	b[0] = 'x'
+	return s[0]
+}
+func badStringOfBytes(b []byte) byte {
+	s := string(b)
+	b[0] = 'x'
+	return s[0]
+}
+
+// ---- if with init and comma-ok
+func okCommaOk(m map[string]int) int {
+	if v, ok := m["a"]; ok {
+		return v
+	}
+	return -1
+}
+func badCommaOk(m map[string]int) int {
+	if v, ok := m["a"]; ok {
+		return v
+	}
+	return -1
+}
+
+// ---- a struct passed by value to a callee under contract
+func setPairA(p pair) pair { p.a = 9; return p }
+func okByValue(p pair) int {
+	q := setPairA(p)
+	return p.a + q.a
+}
+func badByValue(p pair) int {
+	q := setPairA(p)
+	return p.a + q.a
+}
+
+// ---- writing the slice being ranged over: the value was read before the write
+func okRangeWrite(s []int) int {
+	for i, v := range s {
+		s[i] = v + 1
+	}
+	if len(s) > 0 {
+		return s[0]
+	}
+	return 0
+}
+func badRangeWrite(s []int) int {
+	for i, v := range s {
+		s[i] = v + 1
+	}
+	if len(s) > 0 {
+		return s[0]
+	}
+	return 0
+}
